@@ -114,7 +114,7 @@ def evaluate(mod, cases, res: Result, with_model=True):
             # neither the model nor any property is about -- the case is counted and left out
             res.stats["skipped:beyond_dtype_range"] += 1
             continue
-        fails = mod.oracle(c, io)
+        fails = oracle_of(mod, c, io)
         if fails:
             found.append((c, "oracle", fails, io, mo))
             continue
@@ -127,6 +127,26 @@ def evaluate(mod, cases, res: Result, with_model=True):
             if d:
                 found.append((c, "disagree", d[:12], io, mo))
     return found
+
+
+def oracle_of(mod, c, io):
+    """the property oracle on the implementation's outputs; when the history was also run without reading intermediate
+    states (io["unobserved_outs"]), the oracle must hold on that run's final state as well"""
+    fails = mod.oracle(c, io)
+    if fails:
+        return fails
+    alt = io.get("unobserved_outs") if isinstance(io, dict) else None
+    if alt is not None:
+        io2 = dict(io)
+        io2["outs"] = alt
+        f2 = mod.oracle(c, io2)
+        if f2:
+            return [f2[0] + " [in a run of the same history that does not read the histograms between the operations]"] + f2[1:]
+        a, b = strip_private(alt[-1]), strip_private(io["outs"][-1])
+        if a != b:
+            return ["unobserved: the final state of the same history differs when the histograms are not read between the "
+                    "operations: " + "; ".join(_dd(b, a, None, "final")[:3])]
+    return []
 
 
 def shrink(mod, case, still_fails, budget=25):
@@ -206,7 +226,7 @@ def run_property(mod, tier: str, seed: int, replay: str | None = None) -> int:
 
     def is_oracle_failure(c):
         io = mod.run_impl(c)
-        return bool(mod.oracle(c, io))
+        return bool(oracle_of(mod, c, io))
 
     def is_disagreement(c):
         io = mod.run_impl(c)
@@ -227,8 +247,8 @@ def run_property(mod, tier: str, seed: int, replay: str | None = None) -> int:
         nrep += 1
         path = core.write_replay(prop, seed, nrep, {
             "property": prop, "seed": seed, "kind": "property fails on the implementation",
-            "failures": mod.oracle(small, io2), "case": small, "impl": io2})
-        violations.append({"kind": "oracle", "replay": str(path), "detail": mod.oracle(small, io2)[:3]})
+            "failures": oracle_of(mod, small, io2), "case": small, "impl": io2})
+        violations.append({"kind": "oracle", "replay": str(path), "detail": oracle_of(mod, small, io2)[:3]})
 
     if disagree and not [v for v in violations if v["kind"] == "oracle"]:
         # the correspondence broke: search for an input on which the property itself fails
@@ -253,9 +273,9 @@ def run_property(mod, tier: str, seed: int, replay: str | None = None) -> int:
             nrep += 1
             path = core.write_replay(prop, seed, nrep, {
                 "property": prop, "seed": seed, "kind": "property fails on the implementation (found after the correspondence broke)",
-                "failures": mod.oracle(small, io2), "case": small, "impl": io2,
+                "failures": oracle_of(mod, small, io2), "case": small, "impl": io2,
                 "correspondence_case": disagree[0][0], "differences": disagree[0][2]})
-            violations.append({"kind": "oracle", "replay": str(path), "detail": mod.oracle(small, io2)[:3]})
+            violations.append({"kind": "oracle", "replay": str(path), "detail": oracle_of(mod, small, io2)[:3]})
         else:
             c, kind, d, io, mo = disagree[0]
             small = shrink(mod, c, is_disagreement) if not replay else c
